@@ -229,6 +229,9 @@ class PrecipitateModel (PrecipitateBase):
 
             self.PSDXalpha[p][:,0], self.PSDXbeta[p][:,0] = self.therm.getInterfacialComposition(T, self.particleGibbs(self.PBM[p].PSDbounds, self.precipitateParameters[p].phase), precPhase=self.precipitateParameters[p].phase)
             self.RdrivingForceIndex[p] = np.amax([np.argmax(self.PSDXalpha[p][:,0] != -1) - 1, 0])
+            #argmax is 0 if no size class is stable, in that case all size classes are below the driving force limit
+            if not np.any(self.PSDXalpha[p][:,0] != -1):
+                self.RdrivingForceIndex[p] = len(self.PSDXalpha[p][:,0]) - 1
             self.precipitateParameters[p].RdrivingForceLimit = self.PBM[p].PSDbounds[self.RdrivingForceIndex[p]]
 
             #Sets particle radii smaller than driving force limit to driving force limit composition
@@ -629,6 +632,9 @@ class PrecipitateModel (PrecipitateBase):
                 self.PSDXalpha[p] = np.zeros((self.PBM[p].bins + 1, self.numberOfElements))
                 self.PSDXbeta[p] = np.zeros((self.PBM[p].bins + 1, self.numberOfElements))
                 self.growth[p] = np.zeros(self.PBM[p].bins+1)
+                #The lookup table is empty, so no size class of the new grid is stable (binary only)
+                if self.numberOfElements == 1:
+                    self.RdrivingForceIndex[p] = self.PBM[p].bins
                 continue
             self.PBM[p].UpdatePBMEuler(t, x[p])
             change, addedIndices = self.PBM[p].adjustSizeClassesEuler(all(self.growth[p] < 0))
